@@ -1354,7 +1354,7 @@ class Variable(object):
             assert len(index) == len(self.shape)
             var_name = self.name
             for i in index:
-                var_name += "_" + str(index[i])
+                var_name += "_" + str(i)
             if self.cp_effect == True:
                 self.vm.set(var_name + "r", value[0])
                 self.vm.set(var_name + "i", value[1])
@@ -1448,7 +1448,7 @@ class Variable(object):
             assert len(index) == len(self.shape)
             var_name = self.name
             for i in index:
-                var_name += "_" + str(index[i])
+                var_name += "_" + str(i)
             self.vm.set(var_name + "r", rho)
         else:
             rho = np.array(rho)
@@ -1473,7 +1473,7 @@ class Variable(object):
             assert len(index) == len(self.shape)
             var_name = self.name
             for i in index:
-                var_name += "_" + str(index[i])
+                var_name += "_" + str(i)
             self.vm.set(var_name + "i", phi)
         else:
             phi = np.array(phi)
